@@ -925,6 +925,11 @@ if __name__ != "__main__":
 
 def checks(h):
     _setup_process()
+    # warm-up, not measured: the first parse in a freshly forked shard pays for copy-on-write of the heap
+    import gc
+    for _ in range(3):
+        run_once("module", '%0 = "test.op"() {a = dense<[1, 2]> : tensor<2xi32>} : () -> (i32)', True, cap=30.0)
+    gc.collect()
     unit = h.scale(100, 1500)       # examples per weight unit and shard (weights sum to 26)
     passes = h.scale(1, 2)          # each pass allows MAX_ROUNDS more collect-then-shrink rounds
     # (c) quick: one 30 s campaign next to shard 0; thorough: one 8 min campaign next to every shard
